@@ -1887,7 +1887,24 @@ class ConstraintSignature(BaseSignature):
         return (other is not None and
                 self.name == other.name and
                 self.type is other.type and
-                dict.__eq__(self.attrs, other.attrs))
+                dict.__eq__(self._get_normalized_attrs(),
+                            other._get_normalized_attrs()))
+
+    def _get_normalized_attrs(self):
+        """Return attributes normalized for comparison.
+
+        Tuples (such as ``UniqueConstraint.fields`` taken from a model) are
+        compared as lists, which is what the same values are after being
+        loaded back from a stored signature.
+
+        Returns:
+            dict:
+            The normalized attributes.
+        """
+        return dict(
+            (key, list(value) if isinstance(value, tuple) else value)
+            for key, value in six.iteritems(self.attrs or {})
+        )
 
     def __hash__(self):
         """Return a hash of the signature.
@@ -2116,7 +2133,10 @@ class IndexSignature(BaseSignature):
                 ((not self.name and not other.name) or
                  self.name == other.name) and
                 ((not self.expressions and not other.expressions) or
-                 self.expressions == other.expressions) and
+                 # Index.deconstruct() gives a tuple of expressions, a
+                 # stored signature a list.
+                 list(self.expressions or []) ==
+                 list(other.expressions or [])) and
                 self.fields == other.fields and
                 dict.__eq__(self.attrs or {}, other.attrs or {}))
 
